@@ -100,6 +100,15 @@ func garbleOnce(res *Result, c *circuit.Circuit, gc *gCase, rng *rand.Rand, keyL
 		return nil
 	}
 	defer garbled.Release()
+	if rng.Intn(2) == 0 {
+		// a second garbling of the same circuit value while the first is still in use: every garbling owns its
+		// labels and tables until it is released
+		key2 := make([]byte, keyLen)
+		rng.Read(key2)
+		if g2, err := c.Garble(rng, key2); err == nil {
+			defer g2.Release()
+		}
+	}
 	obs := &gObs{}
 	if !garbled.R.S() {
 		res.viol("R-permute-bit", "permute bit of R is 0")
